@@ -245,11 +245,16 @@ impl futures_io::AsyncRead for Pieces {
         if self.left_in_piece == 0 {
             if self.idx >= self.plan.len() {
                 if self.err_at_end {
-                    // whatever the kind of the error, the body is incomplete (kinds that mean "try again" are left out)
+                    // Whatever the kind of the error, the body is incomplete: C07 says "a source error ends the output
+                    // without the terminating chunk", with no exception for kinds such as Interrupted.  The error is
+                    // reported once; a source asked again afterwards reports end of stream, so an encoder that swallows
+                    // the error and goes on presents the truncated stream as a complete one.
                     use std::io::ErrorKind as K;
                     let kinds = [K::Other, K::UnexpectedEof, K::BrokenPipe, K::ConnectionReset, K::ConnectionAborted, K::TimedOut,
-                                 K::InvalidData, K::NotFound, K::PermissionDenied, K::WriteZero, K::InvalidInput];
+                                 K::InvalidData, K::NotFound, K::PermissionDenied, K::WriteZero, K::InvalidInput, K::Interrupted,
+                                 K::WouldBlock];
                     let k = kinds[(self.given as usize + self.plan.len()) % kinds.len()];
+                    self.err_at_end = false;
                     return Poll::Ready(Err(std::io::Error::new(k, "source error")));
                 }
                 return Poll::Ready(Ok(0));
@@ -660,7 +665,14 @@ pub fn run_status(_args: &Args, mut out: Out) {
         let mut conn = HttpConn::new(peer, async_net::TcpStream::try_from(s).unwrap());
         let r = futures_lite::future::block_on(async {
             conn.read_request().await.unwrap();
-            conn.write_response(&Response::new(code)).await
+            // the marker must not depend on what else the handler put into the response
+            let resp = match code % 4 {
+                0 => Response::new(code),
+                1 => Response::new(code).with_header("Connection", "keep-alive".try_into().unwrap()),
+                2 => Response::new(code).with_header("x-extra", "1".try_into().unwrap()).with_header("keep-alive", "timeout=5".try_into().unwrap()),
+                _ => Response::new(code).with_header("x-extra", "1".try_into().unwrap()).with_header("connection", "Keep-Alive".try_into().unwrap()),
+            };
+            conn.write_response(&resp).await
         });
         let shut = conn.write_state == WriteState::Shutdown;
         drop(conn);
